@@ -115,3 +115,28 @@ Proof.
   - split; split; intros H; try lia; [discriminate H|].
     destruct ((0 + (if sh then depth_after 0 ops - 0 else 0)) =? 1); discriminate H.
 Qed.
+
+(* ---- one well-formed region (open, distributed loop, all-reduce, close) entered from any consistent configuration, at any
+   nesting depth, with or without MPI: the helper answers, on every process the all-reduced value of the per-process partial
+   sums is the serial sum, and closing restores the configuration without raising ---- *)
+Theorem region_protocol_reduces_to_serial : forall (A : Type) (op : A -> A -> A) (e : A),
+  (forall x y z, op x (op y z) = op (op x y) z) -> (forall x, op e x = x) ->
+  forall (f : Z -> A) (sh : bool) s size start stop rank, 1 <= size -> start <= stop -> 0 <= r_region s -> 0 <= r_level s ->
+  let s1 := fst (r_step sh s RStart) in
+  helper (r_region s1) (r_level s1) FromStart size start stop (Z.of_nat rank)
+    = Handed (api_block (r_level s1) FromStart size start stop (Z.of_nat rank)) /\
+  reduce_mode (r_region s1) (r_level s1) <> RRefused /\
+  after_allreduce op e (r_level s1) size
+    (fun r => msum A op e (map f (api_block (r_level s1) FromStart size start stop (Z.of_nat r)))) rank
+  = msum A op e (map f (zrange start stop)) /\
+  r_step sh s1 RFinish = (s, false).
+Proof.
+  intros A op e Hassoc Hid f sh s size start stop rank Hs Hss Hg Hl s1.
+  assert (Hreg : (r_region s1 <? 1) = false) by (subst s1; cbn; apply Z.ltb_ge; lia).
+  split; [unfold helper; rewrite Hreg; reflexivity|].
+  split; [unfold reduce_mode; rewrite Hreg; destruct (r_level s1 =? 1); discriminate|].
+  split; [apply (allreduce_eq_serial A op e Hassoc Hid f (r_level s1) size start stop rank Hs Hss)|].
+  subst s1. destruct s as [l g]. cbn [r_level r_region] in *. unfold r_step. cbn [fst r_level r_region].
+  assert (Hlt : ((if sh then (if sh then l + 1 else l) - 1 else (if sh then l + 1 else l)) <? 0) = false) by (apply Z.ltb_ge; destruct sh; lia).
+  rewrite Hlt. f_equal. f_equal; destruct sh; lia.
+Qed.
